@@ -1,6 +1,7 @@
 (* DrvRead.v — line-protocol commands for the binary reader model (K2). *)
 From Coq Require Import String List NArith ZArith Bool.
 From IonV Require Import Base.Wire Bin.Bits Data.Ion Bin.BitStream Bin.BinReader Num.Calendar Num.Timestamp.
+From IonV Require Export Bin.BinReaderTs.   (* ts_ok_default, used by the other reader drivers too *)
 Import ListNotations.
 Open Scope N_scope.
 
@@ -19,15 +20,6 @@ Fixpoint parse_rops (ts : list (list N)) : option (list rop) :=
               | Some o, Some l => Some (o :: l)
               | _, _ => None
               end
-  end.
-
-(* ReadTimestamp on the sliced body: the model of Num/Timestamp.v for the repaired tree *)
-Definition ts_ok_default (body : list N) : res unit :=
-  match read_ts_body patched (N.of_nat (length body)) body with
-  | Ok _ => Ok tt
-  | Err => Err
-  | Panic => Panic
-  | OutOfFuel => OutOfFuel
   end.
 
 (* the reader model carries a timestamp as its binary body and prints "T" ++ hex; the harness prints the
